@@ -18,7 +18,7 @@ Qed.
 
 Lemma call_at_S cfg prog d f args w :
   call_at cfg prog (S d) f args w =
-  match prim f args w with
+  match prim cfg f args w with
   | Some r => r
   | None =>
     match prog f with
@@ -31,6 +31,7 @@ Lemma call_at_S cfg prog d f args w :
         | SOk CNormal _ w1 => EOk VNone w1
         | SOk (CReturn v) _ w1 => EOk v w1
         | SOk (CRaise x) _ w1 => EExn x w1
+        | SOk CContinue _ _ => EUnsup
         | SUnsup => EUnsup
         end
       end
@@ -101,6 +102,7 @@ Definition for_step cfg cl (s : stmt) (v : value) (en : env) (w : world) : sres 
 Lemma exec_for_list cfg cl s en w l w1 : is_for s -> eval cfg cl en (for_iter s) w = EOk (VList l) w1 ->
   exec cfg cl s en w = for_each (for_step cfg cl s) l en w1.
 Proof. destruct s; try contradiction. intros _ H. cbn [exec for_iter] in *. rewrite H. reflexivity. Qed.
+(* (the iterable is a list value: [as_list (VList l)] is l by computation) *)
 
 Definition head_of (s : stmt) : stmt := match s with SSeq a _ => a | other => other end.
 Definition tail_of (s : stmt) : stmt := match s with SSeq _ b => b | _ => SPass end.
@@ -143,3 +145,85 @@ Lemma one_le_shiftl n : (1 <=? N.shiftl 1 n) = true.
 Proof. apply N.leb_le. rewrite N.shiftl_1_l. pose proof (N.pow_nonzero 2 n). lia. Qed.
 Lemma shiftl_sub1 n : N.shiftl 1 n - 1 = N.ones n.
 Proof. unfold N.ones. now rewrite N.sub_1_r. Qed.
+
+(* ---- ints: the computation in N on non-negative ints is the computation in Z ----------------------------------------- *)
+Lemma of_Z_of_N n : of_Z (Z.of_N n) = VInt n.
+Proof. destruct n; reflexivity. Qed.
+Lemma int_Z_of_Z z : int_Z (of_Z z) = Some z.
+Proof. destruct z; reflexivity. Qed.
+Lemma num_Z_of_Z z : num_Z (of_Z z) = Some z.
+Proof. destruct z; reflexivity. Qed.
+
+Lemma int_bin_is_z_bin o x y : int_bin o x y = z_bin o (Z.of_N x) (Z.of_N y).
+Proof.
+  destruct o; cbn [int_bin z_bin].
+  - now rewrite <- N2Z.inj_add, of_Z_of_N.
+  - destruct (N.leb_spec y x) as [H|H]; [|reflexivity]. now rewrite <- N2Z.inj_sub, of_Z_of_N.
+  - now rewrite <- N2Z.inj_mul, of_Z_of_N.
+  - f_equal. rewrite <- of_Z_of_N. f_equal. destruct x, y; reflexivity.
+  - f_equal. rewrite <- of_Z_of_N. f_equal. destruct x, y; reflexivity.
+  - f_equal. rewrite <- of_Z_of_N. f_equal. destruct x, y; reflexivity.
+  - replace (Z.of_N y <? 0)%Z with false by (symmetry; apply Z.ltb_ge; lia).
+    f_equal. rewrite <- of_Z_of_N. f_equal.
+    rewrite N.shiftl_mul_pow2, Z.shiftl_mul_pow2 by lia. now rewrite N2Z.inj_mul, N2Z.inj_pow.
+  - replace (Z.of_N y <? 0)%Z with false by (symmetry; apply Z.ltb_ge; lia).
+    f_equal. rewrite <- of_Z_of_N. f_equal.
+    rewrite N.shiftr_div_pow2, Z.shiftr_div_pow2 by lia. now rewrite N2Z.inj_div, N2Z.inj_pow.
+  - replace (Z.of_N y =? 0)%Z with (y =? 0) by (destruct y; reflexivity).
+    destruct (y =? 0); [reflexivity|]. now rewrite <- N2Z.inj_mod, of_Z_of_N.
+Qed.
+
+Lemma bin_of_Z o a b : bin o (of_Z a) (of_Z b) = z_bin o a b.
+Proof.
+  destruct a as [|p|p], b as [|q|q]; cbn [of_Z bin num_Z int_Z]; try reflexivity;
+    rewrite int_bin_is_z_bin; cbn [Z.to_N]; rewrite ?Z2N.id by lia; reflexivity.
+Qed.
+
+Lemma cmp_of_Z o a b : cmp o (of_Z a) (of_Z b) = Some (z_cmp o a b).
+Proof. destruct a as [|p|p], b as [|q|q], o; reflexivity. Qed.
+
+Lemma truth_of_Z a : truth (of_Z a) = Some (negb (a =? 0)%Z).
+Proof. destruct a; reflexivity. Qed.
+
+Lemma VInt_of_Z n : VInt n = of_Z (Z.of_N n).
+Proof. now rewrite of_Z_of_N. Qed.
+
+(* arithmetic on ints given as Z *)
+Lemma z_bin_shl x y : (0 <= y)%Z -> z_bin Shl x y = Some (of_Z (Z.shiftl x y)).
+Proof. intros H. cbn [z_bin]. destruct (Z.ltb_spec y 0); [lia|reflexivity]. Qed.
+Lemma z_bin_mod2 x : z_bin Mod x 2 = Some (of_Z (x mod 2)%Z).
+Proof. reflexivity. Qed.
+Lemma if_ok_bool (b c : bool) w : (if b then EOk (VBool c) w else EOk (VBool false) w) = EOk (VBool (b && c)) w.
+Proof. now destruct b. Qed.
+Lemma if_ok_bool_or (b c : bool) w : (if b then EOk (VBool true) w else EOk (VBool c) w) = EOk (VBool (b || c)) w.
+Proof. now destruct b. Qed.
+Lemma VInt_of_nat n : VInt (N.of_nat n) = of_Z (Z.of_nat n).
+Proof. rewrite <- nat_N_Z. now rewrite of_Z_of_N. Qed.
+
+(* a `for .. in enumerate(..)` whose body raises x when test holds of the element, and otherwise goes on (possibly by
+   `continue`), without touching the world *)
+Lemma for_each_enum_first_raise {A} (conv : A -> value) (I : env -> Prop) step (w : world) (test : A -> bool) x :
+  (forall en k a, I en -> exists en' c, I en' /\ (c = CNormal \/ c = CContinue) /\
+     step (VPair (VInt k) (conv a)) en w = if test a then SOk (CRaise x) en' w else SOk c en' w) ->
+  forall l k en, I en -> exists en', I en' /\
+     for_each step (enumerate_from k (map conv l)) en w =
+     if existsb test l then SOk (CRaise x) en' w else SOk CNormal en' w.
+Proof.
+  intros Hstep. induction l as [|a l IH]; intros k en Hen; cbn [map enumerate_from for_each existsb].
+  - exists en. auto.
+  - destruct (Hstep en k a Hen) as (en1 & c & H1 & Hc & ->). destruct (test a); cbn [orb].
+    + exists en1. auto.
+    + destruct Hc as [-> | ->]; apply IH; exact H1.
+Qed.
+Lemma if_ok_bool_or' (b c : bool) w : (if b then EOk (VBool b) w else EOk (VBool c) w) = EOk (VBool (b || c)) w.
+Proof. now destruct b. Qed.
+
+Lemma of_Z_nonneg z : (0 <= z)%Z -> of_Z z = VInt (Z.to_N z).
+Proof. destruct z; try reflexivity. lia. Qed.
+Lemma set_item_map {A} (f : A -> value) (setn : list A -> nat -> A -> list A) :
+  (forall l n v, setn l n v = match l, n with [], _ => [] | _ :: r, O => v :: r | x :: r, S k => x :: setn r k v end) ->
+  forall l n v, (n < length l)%nat -> set_item (map f l) n (f v) = Some (map f (setn l n v)).
+Proof.
+  intros Hs. induction l as [|x r IH]; intros n v Hn; [cbn in Hn; lia|].
+  rewrite Hs. destruct n; cbn [map set_item]; [reflexivity|]. rewrite IH by (cbn in Hn; lia). reflexivity.
+Qed.
